@@ -157,7 +157,18 @@ def class_specs(draw, name, earlier, allow_hooks=True):
             c['sav'] = 'raise'
         elif h == 5 and params:
             c['sav'] = {'rebuild': draw(st.sampled_from([q['n'] for q in params]))}
-        elif h in (6, 7) and dparams:
+        elif h in (6, 7):
+            # a class whose savorize fills in defaults carries a float or a bool default
+            # among them (1.0 / True and 0.0 / False are the values that may be confused)
+            free = [nm for nm in ('gain', 'flag', 'ratio', 'enabled') if nm not in used
+                    and nm not in [q['n'] for q in params]]
+            if free:
+                if draw(st.booleans()):
+                    extra = {'n': free[0], 't': 'float', 'd': {'v': draw(st.sampled_from([0.0, 1.0]))}}
+                else:
+                    extra = {'n': free[0], 't': 'bool', 'd': {'v': draw(st.booleans())}}
+                params.append(extra)
+                dparams = dparams + [extra]
             # fill in every omitted scalar default (1.0 == True and 0.0 == False: values
             # that collide in an untyped cache; the filled value may differ from the
             # Python default, as when a file format has its own defaults)
